@@ -2,6 +2,7 @@ package main
 
 import (
 	"fmt"
+	"sort"
 	"strings"
 
 	"golang.org/x/tools/go/ssa"
@@ -414,4 +415,144 @@ func skipsIteration(p *Program, view *View, call ssa.Instruction) string {
 		}
 	}
 	return ""
+}
+
+// R-CHECK-ALL (C10, C06, C09): validation loops validate every element.
+func init() {
+	register(&Rule{Name: "R-CHECK-ALL", Min: 10,
+		Doc: "in the type library and the typechecker, wherever a loop over a collection calls an error-returning check on the loop's element and returns that error, no iteration can complete without running the check (a nil test of the element is the only accepted skip)",
+		Run: runCheckAll})
+}
+
+func runCheckAll(p *Program, r *RuleResult) {
+	n := 0
+	var conditional []string
+	for _, fn := range p.SrcFuncs {
+		if fn.Pkg == nil || !(fn.Pkg.Pkg.Path() == typesPkg || fn.Pkg.Pkg.Path() == processPkg) || fn.Blocks == nil {
+			continue
+		}
+		if rm := rootMethod(fn); strings.HasPrefix(rm.Name(), "Transition") {
+			continue
+		}
+		view := p.View(fn)
+		loops := view.Loops()
+		if len(loops) == 0 {
+			continue
+		}
+		ord := 0
+		for _, c := range p.callsIn(fn) {
+			call, ok := c.(*ssa.Call)
+			if !ok {
+				continue
+			}
+			res := call.Type()
+			if !(isErrorType(res) || isNamed(res, processPkg, "TypeError")) {
+				continue
+			}
+			var loop *Loop
+			for _, l := range loops {
+				if l.Body[call.Block()] && (loop == nil || len(l.Body) < len(loop.Body)) {
+					loop = l
+				}
+			}
+			if loop == nil {
+				continue
+			}
+			// the error is returned from inside the loop
+			prop := false
+			for _, b := range view.Blocks() {
+				if loop.Body[b] || true {
+					if view.holdsAt(b, call, factNonNil) {
+						ins := view.Instrs(b)
+						if _, ok := ins[len(ins)-1].(*ssa.Return); ok {
+							prop = true
+						}
+					}
+				}
+			}
+			if !prop {
+				continue
+			}
+			// takes the loop's element: an argument derives from a value defined in the loop
+			// by indexing / ranging (Next, IndexAddr, Lookup)
+			elem := false
+			var fromElem func(v ssa.Value, d int) bool
+			fromElem = func(v ssa.Value, d int) bool {
+				if d > 6 {
+					return false
+				}
+				switch x := v.(type) {
+				case *ssa.Extract:
+					if _, ok := x.Tuple.(*ssa.Next); ok {
+						return loop.Body[x.Block()]
+					}
+					return fromElem(x.Tuple, d+1)
+				case *ssa.UnOp:
+					return fromElem(x.X, d+1)
+				case *ssa.IndexAddr:
+					return loop.Body[x.Block()]
+				case *ssa.Index:
+					return loop.Body[x.Block()]
+				case *ssa.Lookup:
+					return loop.Body[x.Block()]
+				case *ssa.FieldAddr:
+					return fromElem(x.X, d+1)
+				case *ssa.Field:
+					return fromElem(x.X, d+1)
+				case *ssa.MakeInterface:
+					return fromElem(x.X, d+1)
+				case *ssa.ChangeInterface:
+					return fromElem(x.X, d+1)
+				case *ssa.Call:
+					for _, a := range x.Common().Args {
+						if fromElem(a, d+1) {
+							return true
+						}
+					}
+					if x.Common().IsInvoke() {
+						return fromElem(x.Common().Value, d+1)
+					}
+				case *ssa.Alloc:
+					for _, st := range storesTo(x) {
+						if loop.Body[st.Block()] && fromElem(st.Val, d+1) {
+							return true
+						}
+					}
+				}
+				return false
+			}
+			for _, a := range call.Common().Args {
+				if fromElem(a, 0) {
+					elem = true
+				}
+			}
+			if call.Common().IsInvoke() && fromElem(call.Common().Value, 0) {
+				elem = true
+			}
+			if !elem {
+				continue
+			}
+			callee := "dynamic"
+			if sc := call.Common().StaticCallee(); sc != nil {
+				callee = sc.Name()
+			} else if call.Common().IsInvoke() {
+				callee = call.Common().Method.Name()
+			}
+			ord++
+			construct := fmt.Sprintf("every-element:%s#%d", callee, ord)
+			w := skipsIteration(p, view, call)
+			if w == "" {
+				n++
+				r.add(fnName(fn), construct, Holds, p.instrPos(call), "every iteration runs the check")
+			} else {
+				conditional = append(conditional, fmt.Sprintf("%s %s (%s; skip ends at %s)", fnName(fn), construct, p.instrPos(call), w))
+				r.add(fnName(fn), construct, Violated, p.instrPos(call), "an iteration can end at "+w+" without this check")
+			}
+		}
+	}
+	sort.Strings(conditional)
+	for _, c := range conditional {
+		r.note("conditional: %s", c)
+	}
+	r.count("unconditional element checks", n)
 }
